@@ -29,6 +29,8 @@ func Dedup(rrs []RR, m map[string]RR) []RR {
 	// If the length of the result map equals the amount of RRs we got,
 	// it means they were all different. We can then just return the original rrset.
 	if len(m) == len(rrs) {
+		// Leave m empty, as the loop below does, so that the caller can hand it in again.
+		clear(m)
 		return rrs
 	}
 
